@@ -17,6 +17,8 @@ var ErrTransport = errors.New("vpipe: injected transport failure")
 
 // Pipe is the connection-side io.ReadWriteCloser plus the peer-side controls.
 type Pipe struct {
+	// OnWrite, if set, runs (in the writer's task) each time bytes are accepted by Write.
+	OnWrite func()
 	In         []byte // peer -> connection, not yet read
 	InEOF      bool   // peer ended its sending side
 	InErr      error  // transport read failure once In is drained
@@ -125,6 +127,9 @@ func (p *Pipe) Write(b []byte) (n int, err error) {
 					if space := p.Window - (len(p.Out) - p.Taken); m > space {
 						m = space
 					}
+				}
+				if p.OnWrite != nil {
+					p.OnWrite()
 				}
 				p.Out = append(p.Out, rest[:m]...)
 				p.Writes = append(p.Writes, m)
